@@ -4,6 +4,7 @@ from . import common as c
 FAMILIES = {
     "C17": ("f3_graph", None),
     "C15": ("f4_trie", None),
+    "C16": ("f5_annot", None),
 }
 
 
